@@ -21,6 +21,7 @@ if [ "${MUTANT_RUN_TESTS:-0}" = "1" ]; then
   rm -f /tmp/mwt-tests-$$.log
 fi
 cd /verif
+export VERIF_MAXCONFIRM=${VERIF_MAXCONFIRM:-2}   # a mutant needs one confirmed violation, not twelve
 export VERIF_REPO="$wt" VERIF_EVIDENCE_DIR=/tmp/mwt-ev-$$/evidence VERIF_REPLAY_DIR=/tmp/mwt-ev-$$/replay
 for p in "$@"; do
   out=$(./check $p ${MUTANT_TIER:-quick} 2>&1); rc=$?
